@@ -24,7 +24,8 @@ PREFIX = {"init": [], "open": ["@open"], "closing": ["@open", "local-stop"]}
 def run_sequence(acc, case):
     role, apps, seq = case["role"], case["apps"], case["seq"]
     wd = 3
-    sc = N.Scenario(seed=case.get("seed", 0), strategy="rr", role=role, apps=apps, watchdog=wd, max_steps=600_000, wall_s=90)
+    sc = N.Scenario(seed=case.get("seed", 0), strategy="rr", role=role, apps=apps, watchdog=wd, max_steps=600_000, wall_s=90,
+                    lines=bool(case.get("park_psm")))
     wit = {"case": case}
     cells = acc.extra.setdefault("cells", {})
     with sc:
@@ -51,6 +52,27 @@ def run_sequence(acc, case):
                     break
                 exp = scen.model_step(model, ev, role)
                 t0 = ticks[0]
+                if case.get("park_psm") and len(trace) == case["park_psm"][0]:
+                    # park sweep (DESIGN 2.5b): the state-machine thread is stopped at the k-th source line of its tick; the event
+                    # lands (and is digested by the transport thread and the receive worker) while it stands there; it resumes
+                    # mid-tick at most 20 virtual ms later, well inside the settling time of the observation
+                    psm = run.psm_task()
+                    applied = [False]
+                    assoc = sc.node._association
+
+                    def handled():
+                        tr = assoc.transport if assoc is not None else None
+                        return applied[0] and not sc.node_sock.rx and (tr is None or not tr._recv_data_stream)
+                    if psm is not None and not psm.done:
+                        sc.sched.parks.append({"task": psm.name, "nth": sc.sched.line_count.get(psm.name, 0) + case["park_psm"][1],
+                                               "release": handled, "timeout": 0.02})
+                        sc.sched.run_until(lambda: psm.why == "parked" or psm.done, 0.05, "psm-parks")
+                        if psm.why == "parked":
+                            acc.counters["events_landed_on_a_parked_state_machine"] += 1
+                            acc.extra.setdefault("parked_at", {})
+                            kk = sc.sched.parked_at[-1][1] if sc.sched.parked_at else "?"
+                            acc.extra["parked_at"][kk] = acc.extra["parked_at"].get(kk, 0) + 1
+                    applied[0] = True
                 obs = run.apply(ev)
                 trace.append({"event": ev, "model_before": model, "state_after": obs["state_after"], "emitted": obs["emitted"],
                               "delivered": [d[2] for d in obs["delivered"]], "elapsed": obs["elapsed"]})
@@ -214,6 +236,15 @@ def plan(tier, seed):
         seq = ["@open"] if rng.random() < 0.8 else []
         seq += [rng.choice(scen.EVENTS) for _ in range(rng.randrange(2, 10))]
         cases.append({"role": role, "apps": rng.choice([[], [16777251], [16777251, 4]]), "seq": seq, "seed": seed * 31 + i})
+    # park sweep of the state-machine thread: each event lands while the thread stands at the k-th line of its tick
+    for prefix, events in ((["@open"], ["local-stop", "local-stop+pending-inbound", "DPR", "DWR", "peer-disconnect", "APP-req", "DWA-echo", "CER"]),
+                           (["@open", "local-stop"], ["DPA", "peer-disconnect", "DWR"]),
+                           ([], ["@open", "peer-disconnect"])):
+        for ev in events:
+            for k in range(0, 90, 3 if q else 1):
+                role = ("client", "server")[k % 2] if q else None
+                for r in ([role] if role else ["client", "server"]):
+                    cases.append({"role": r, "apps": [16777251], "seq": prefix + [ev], "park_psm": [len(prefix), k], "seed": seed * 17 + k})
     for i in range(160 if q else 12000):
         role = rng.choice(["client", "server"])
         cases.append({"kind": "open-sched", "role": role, "apps": rng.choice([[], [16777251]]),
@@ -241,7 +272,7 @@ def main(tier, seed):
                            "round-robin scheduling: this property quantifies over histories, not schedules"],
                           t0, extra_cov={"states": len({c.split("|")[0] for c in cells}), "transitions": len(cells),
                                          "cells_exercised": cells, "exhaustive_depth": depth},
-                          exhaustive=True, require_counters=("events_applied", "hard_cells_judged", "h9_checked", "sequences_completed", "open_under_schedule", "real_loopback_ok"))
+                          exhaustive=True, require_counters=("events_applied", "hard_cells_judged", "h9_checked", "sequences_completed", "open_under_schedule", "real_loopback_ok", "events_landed_on_a_parked_state_machine"))
 
 
 def replay(w):
